@@ -31,6 +31,7 @@ import (
 )
 
 type impWant struct {
+	heap     string // name of a struct type whose pointers are addresses into a threaded heap h__ (package trie)
 	errZ     bool
 	floatAs  string // Gallina type standing for float64 in this package ("" = Z, integer-valued scores)
 	join     bool // translate `if` by joining the assigned variables instead of duplicating what follows
@@ -54,6 +55,7 @@ var impWants = []impWant{
 			"argmax", "traceAlignmentStepsLocal", "Local",
 			"init@pam120.go#0", "init@pam160.go#0", "init@pam250.go#0", "init@blosum45.go#0", "init@blosum62.go#0", "init@blosum80.go#0"}},
 	{dir: "align", pkg: "alignf", funcs: []string{"SubstitutionMatrix.Symmetrical"}, floatAs: "F"},
+	{dir: "trie", pkg: "trie", funcs: []string{"New", "Trie.Add", "Trie.Has", "Trie.Delete"}, heap: "Trie"},
 	{dir: "formats/fasta", pkg: "fasta", funcs: []string{"Fasta.Write", "Fasta.MarshalText"}, join: true},
 	{dir: "formats/fasta", pkg: "fastard", funcs: []string{"reader.read", "reader.iter", "Reader"}, errZ: true},
 	{dir: "formats/fastq", pkg: "fastq", funcs: []string{"Fastq.Write", "Fastq.MarshalText"}, join: true},
@@ -69,6 +71,7 @@ type impFn struct {
 	name   string
 	fuel   bool
 	stream bool // takes and returns the stream state rd__
+	heap   bool // takes and returns the heap h__
 	sty    string // go_stream or go_scanner
 	recv   bool // ... and the reader object's record, after rd__
 	oracle bool // takes the float oracle o (strconv's parse / format tables)
@@ -107,6 +110,7 @@ type impTr struct {
 	fnName   string
 	join     bool
 	floatAs  string
+	heapType string
 	errZ     bool // errors are Z codes (0 nil, 1 io.EOF, 2 other, 3 io.ErrUnexpectedEOF) instead of bools
 	stream   bool // the receiver is a reader over a *bufio.Reader: the stream state rd__ is threaded
 	label    string
@@ -188,12 +192,39 @@ func isBuilder(ty types.Type) bool {
 	return ty.String() == "strings.Builder" || ty.String() == "bytes.Buffer"
 }
 
+func (t *impTr) isHeapPtr(ty types.Type) bool {
+	if t.heapType == "" || ty == nil {
+		return false
+	}
+	p, ok := ty.(*types.Pointer)
+	if !ok {
+		return false
+	}
+	n, ok := p.Elem().(*types.Named)
+	return ok && n.Obj().Name() == t.heapType
+}
+
+// heapMap recognises  p.m  for a heap pointer p and returns p.
+func (t *impTr) heapMap(e ast.Expr) (ast.Expr, bool) {
+	sel, ok := e.(*ast.SelectorExpr)
+	if !ok {
+		return nil, false
+	}
+	if tv, ok := t.info.Types[sel.X]; ok && t.isHeapPtr(tv.Type) {
+		return sel.X, true
+	}
+	return nil, false
+}
+
 func isAny(ty types.Type) bool {
 	i, ok := ty.Underlying().(*types.Interface)
 	return ok && i.NumMethods() == 0
 }
 
 func (t *impTr) ty(ty types.Type) string {
+	if t.isHeapPtr(ty) {
+		return "Z" // an address in the heap h__; nil is -1
+	}
 	if isAny(ty) && !isError(ty) {
 		return "go_any" // byte | int | float64 | string | []byte (GoSem.v)
 	}
@@ -261,6 +292,9 @@ func (t *impTr) ty(ty types.Type) string {
 }
 
 func (t *impTr) zero(ty types.Type) string {
+	if t.isHeapPtr(ty) {
+		return "(-1)%Z"
+	}
 	if isError(ty) {
 		if t.errZ {
 			return "0%Z"
@@ -513,6 +547,21 @@ func (t *impTr) ex(e ast.Expr, pre *[]opener) string {
 			}
 			return "(Z.opp " + t.ex(e.X, pre) + ")"
 		case token.AND:
+			if cl, ok := e.X.(*ast.CompositeLit); ok && t.isHeapPtr(t.typeOf(e)) {
+				// &Trie{m: map[byte]*Trie{}}: a fresh node with an empty map
+				for _, el := range cl.Elts {
+					kv, ok := el.(*ast.KeyValueExpr)
+					if !ok {
+						t.fail(e, "unsupported heap literal")
+					}
+					if inner, ok := kv.Value.(*ast.CompositeLit); !ok || len(inner.Elts) != 0 {
+						t.fail(e, "a heap node allocated with a non-empty map")
+					}
+				}
+				v := t.fresh()
+				*pre = append(*pre, opener{fmt.Sprintf("let %s := go_len h__ in let h__ := h__ ++ [[]] in ", v), ""})
+				return v
+			}
 			if _, ok := e.X.(*ast.CompositeLit); ok {
 				return t.ex(e.X, pre)
 			}
@@ -542,6 +591,13 @@ func (t *impTr) ex(e ast.Expr, pre *[]opener) string {
 			return fmt.Sprintf("(imp_%s_%s_%s %s)", t.pkg, n.Obj().Name(), e.Sel.Name, x)
 		}
 	case *ast.IndexExpr:
+		if p, ok := t.heapMap(e.X); ok {
+			pp := t.ex(p, pre)
+			k := t.ex(e.Index, pre)
+			v := t.fresh()
+			*pre = append(*pre, opener{fmt.Sprintf("go_heap_get h__ %s %s (fun %s => ", pp, k, v), ")"})
+			return v
+		}
 		xt := t.typeOf(e.X)
 		switch u := xt.Underlying().(type) {
 		case *types.Slice, *types.Array, *types.Basic:
@@ -690,6 +746,13 @@ func (t *impTr) binary(e *ast.BinaryExpr, pre *[]opener) string {
 		return v
 	}
 	// comparison with nil
+	if id, ok := e.Y.(*ast.Ident); ok && id.Name == "nil" && (e.Op == token.EQL || e.Op == token.NEQ) && t.isHeapPtr(lt) {
+		x := t.ex(e.X, pre)
+		if e.Op == token.EQL {
+			return "(Z.eqb " + x + " (-1)%Z)"
+		}
+		return "(negb (Z.eqb " + x + " (-1)%Z))"
+	}
 	if id, ok := e.Y.(*ast.Ident); ok && id.Name == "nil" && (e.Op == token.EQL || e.Op == token.NEQ) && isError(lt) && t.errZ {
 		x := t.ex(e.X, pre)
 		if e.Op == token.EQL {
@@ -888,6 +951,12 @@ func (t *impTr) call(e *ast.CallExpr, pre *[]opener) string {
 		if _, isBuiltin := t.info.Uses[id].(*types.Builtin); isBuiltin {
 			switch id.Name {
 			case "len":
+				if p, ok := t.heapMap(e.Args[0]); ok {
+					pp := t.ex(p, pre)
+					v := t.fresh()
+					*pre = append(*pre, opener{fmt.Sprintf("go_heap_len h__ %s (fun %s => ", pp, v), ")"})
+					return v
+				}
 				return "(go_len " + t.ex(e.Args[0], pre) + ")"
 			case "append":
 				x := t.ex(e.Args[0], pre)
@@ -1098,6 +1167,9 @@ func (t *impTr) call(e *ast.CallExpr, pre *[]opener) string {
 		if fn.oracle {
 			args = append(args, "o")
 		}
+		if fn.heap {
+			args = append(args, "h__")
+		}
 		if sel, ok := e.Fun.(*ast.SelectorExpr); ok {
 			if s, ok := t.info.Selections[sel]; ok && s.Kind() == types.MethodVal {
 				args = append(args, t.ex(sel.X, pre))
@@ -1108,6 +1180,9 @@ func (t *impTr) call(e *ast.CallExpr, pre *[]opener) string {
 		}
 		v := t.fresh()
 		pat := v
+		if fn.heap {
+			pat = "'(h__, " + v + ")"
+		}
 		*pre = append(*pre, opener{fmt.Sprintf("go_call (%s %s) (fun %s => ", fn.name, strings.Join(args, " "), pat), ")"})
 		return v
 	}
@@ -1189,6 +1264,12 @@ func (t *impTr) assigned(n ast.Node) ([]types.Object, int) {
 		switch s := m.(type) {
 		case *ast.AssignStmt:
 			for _, l := range s.Lhs {
+				if ie, ok := l.(*ast.IndexExpr); ok && t.heapType != "" {
+					if _, ok := t.heapMap(ie.X); ok {
+						yields |= 4
+						continue
+					}
+				}
 				add(l)
 			}
 		case *ast.IncDecStmt:
@@ -1210,6 +1291,14 @@ func (t *impTr) assigned(n ast.Node) ([]types.Object, int) {
 				}
 				if t.stream && isBufioMethod(o) {
 					yields |= 2
+				}
+				if fn, ok := t.fns[o]; ok && fn.heap {
+					yields |= 4
+				}
+				if _, ok := o.(*types.Builtin); ok && o.Name() == "delete" && t.heapType != "" {
+					if _, ok := t.heapMap(s.Args[0]); ok {
+						yields |= 4
+					}
 				}
 				if fn, ok := t.fns[o]; ok && fn.stream {
 					yields |= 2
@@ -1261,6 +1350,12 @@ func (t *impTr) assigned(n ast.Node) ([]types.Object, int) {
 					}
 				}
 			}
+		case *ast.UnaryExpr:
+			if s.Op == token.AND && t.heapType != "" {
+				if tv, ok := t.info.Types[s]; ok && t.isHeapPtr(tv.Type) {
+					yields |= 4
+				}
+			}
 		case *ast.FuncLit:
 			return false
 		}
@@ -1292,6 +1387,10 @@ func (t *impTr) tuple(objs []types.Object, yields int) string {
 	if yields&2 != 0 {
 		names = append(names, "rd__")
 		tys = append(tys, t.streamTy)
+	}
+	if yields&4 != 0 {
+		names = append(names, "h__")
+		tys = append(tys, "go_theap")
 	}
 	t.tupleTys[strings.Join(names, ", ")] = strings.Join(tys, " * ")
 	switch len(names) {
@@ -1364,6 +1463,12 @@ func (t *impTr) store(lhs ast.Expr, v string, pre *[]opener) {
 		*pre = append(*pre, opener{fmt.Sprintf("let %s := %s in ", t.nameOf(o), v), ""})
 		return
 	case *ast.IndexExpr:
+		if p, ok := t.heapMap(l.X); ok {
+			pp := t.ex(p, pre)
+			k := t.ex(l.Index, pre)
+			*pre = append(*pre, opener{fmt.Sprintf("go_heap_put h__ %s %s %s (fun h__ => ", pp, k, v), ")"})
+			return
+		}
 		xt := t.typeOf(l.X)
 		if isSetMap(xt) {
 			k := t.ex(l.Index, pre)
@@ -1507,6 +1612,12 @@ func (t *impTr) block(list []ast.Stmt, k string, lc *loopCtx) string {
 					t.store(dst, fmt.Sprintf("(go_copy %s %s)", d, src), &pre)
 					return wrapOpeners(pre, rest())
 				case "delete":
+					if p, ok := t.heapMap(call.Args[0]); ok {
+						pp := t.ex(p, &pre)
+						key := t.ex(call.Args[1], &pre)
+						pre = append(pre, opener{fmt.Sprintf("go_heap_del h__ %s %s (fun h__ => ", pp, key), ")"})
+						return wrapOpeners(pre, rest())
+					}
 					if !isSetMap(t.typeOf(call.Args[0])) {
 						t.fail(s, "delete on a map with values")
 					}
@@ -2624,6 +2735,16 @@ func (t *impTr) function(fd *ast.FuncDecl, coqName string) *impFn {
 			t.retWrap = func(string) string { return "Ret " + t.bufName }
 			rt = "(list N)"
 		}
+		if t.heapType != "" {
+			inner := t.retWrap
+			t.retWrap = func(v string) string {
+				return "Ret (h__, " + strings.TrimPrefix(inner(v), "Ret ") + ")"
+			}
+			if end == "Ret tt" {
+				end = "Ret (h__, tt)"
+			}
+			rt = "(go_theap * " + rt + ")"
+		}
 		if t.outName != "" {
 			inner := t.retWrap
 			on := t.outName
@@ -2652,6 +2773,7 @@ func (t *impTr) function(fd *ast.FuncDecl, coqName string) *impFn {
 	fn := t.selfFn
 	fn.fuel = t.fuel
 	fn.stream = t.stream
+	fn.heap = t.heapType != ""
 	fn.sty = t.streamTy
 	fn.iter = t.yield != nil
 	fn.recv = t.recv != ""
@@ -2661,6 +2783,9 @@ func (t *impTr) function(fd *ast.FuncDecl, coqName string) *impFn {
 	}
 	if fn.oracle {
 		fuel += "(o : foracle) "
+	}
+	if t.heapType != "" {
+		fuel += "(h__ : go_theap) "
 	}
 	if recursive {
 		fmt.Fprintf(t.out, "Fixpoint %s %s%s {struct fuel} : res unit %s :=\n  match fuel with O => NoFuel | Datatypes.S fuel =>\n  %s\n  end.\n\n", coqName, fuel, strings.Join(params, " "), rt, text)
@@ -2716,7 +2841,7 @@ func genImp(repo, out string) {
 			panic(fmt.Sprintf("type-checking %s: %v", want.dir, err))
 		}
 		t := &impTr{pkg: want.pkg, info: info, fset: fset, fns: map[types.Object]*impFn{}, globals: want.globals,
-			records: map[string]bool{}, join: want.join, floatAs: want.floatAs, errZ: want.errZ}
+			records: map[string]bool{}, join: want.join, floatAs: want.floatAs, errZ: want.errZ, heapType: want.heap}
 		fmt.Fprintf(sb, "(* ---- package %s ---- *)\n", want.dir)
 		for _, fname := range want.funcs {
 			if strings.HasPrefix(fname, "var:") { // the initialiser of a package-level variable, as a constant
